@@ -150,7 +150,7 @@ def link_stats(ctx):
             worst = None
             for k, v in r["z"].items():
                 a = float(k)
-                q = float(norm.ppf(max(a, 1 - a)))
+                q = float(norm.isf(min(a, 1 - a)))      # upper-tail quantile, accurate for tiny alpha
                 if v < q * (1 - 1e-9) - 1e-12:
                     fails.append({"alpha": a, "z": v, "normal_quantile": q, "what": "z-score smaller than the true normal quantile"})
                 worst = min(worst, v - q) if worst is not None else v - q
@@ -174,6 +174,22 @@ def link_evaluator(ctx):
               "pyab_experiment.experiment_evaluator.ExperimentEvaluator.__call__",
               "pyab_experiment.codegen.python.custom_exceptions.ExperimentConditionalFailedError.__init__"):
         out += reg.contracts[q].verify()
+    # the generated functions are exec'd with the evaluator MODULE's globals: the skeleton names must be bound there to the
+    # very objects the stand-alone module text imports (otherwise evaluator and module text run different helpers)
+    from pyvc.contract import load_module
+    want = {"partial": "functools.partial", "deterministic_choice": "pyab_experiment.binning.binning.deterministic_choice",
+            "ExperimentConditionalFailedError": "pyab_experiment.codegen.python.custom_exceptions.ExperimentConditionalFailedError"}
+    try:
+        names = load_module("pyab_experiment.experiment_evaluator").names
+        for k, q in want.items():
+            got = names.get(k)
+            out.append(Obl("frame:experiment_evaluator.py/binds-%s" % k, "pyab_experiment.experiment_evaluator", "frame",
+                           "the evaluator module binds `%s` to %s -- the object the generated module header imports" % (k, q),
+                           status=DISCHARGED if got == q else REFUTED, backend="extract", detail="bound to %s" % got, props=("C14", "C02", "C03", "C16", "C12", "C07"),
+                           model={"name": k, "bound_to": got, "expected": q},
+                           replay=lambda ob: __import__("vcore.links_gen", fromlist=["x"]).gen_replay(ob)))
+    except OSError as e:
+        out.append(Obl("frame:experiment_evaluator.py/readable", "pyab_experiment.experiment_evaluator", "frame", "module readable", status=UNDECIDED, backend="extract", detail=str(e), props=("C14",)))
     from vcore import native
 
     def run_lc():
@@ -203,7 +219,7 @@ class C03(Prop):
         from vcore import links_gen
         from vcore.links_models import link_models
         from vcore import links_misc
-        return [link_binning, link_models, links_misc.link_pipeline, links_misc.link_lean, links_misc.link_thorough_binning] + links_gen.links_for("C03")
+        return [link_binning, link_models, link_evaluator, links_misc.link_pipeline, links_misc.link_lean, links_misc.link_thorough_binning] + links_gen.links_for("C03")
 
     def canaries(self, ctx):
         t = BIN + "deterministic_choice"
@@ -211,7 +227,7 @@ class C03(Prop):
         return [contract_canary("bisect_left", t, "from bisect import bisect", "from bisect import bisect_left as bisect", r"ensures\.member\+interval"),
                 contract_canary("lo=1", t, ", 0, hi)", ", 1, hi)", r"ensures\.member|pre-callee"),
                 contract_canary("divisor-ffffffff", tp, "max_int = 4294967296", "max_int = 4294967295", r"ensures\.range|ensures\.grid"),
-                contract_canary("total<0", t, "total <= 0.0", "total < 0.0", r"raises\.must:ValueError|ensures\.member")]
+                contract_canary("total<0", t, "total <= 0.0", "total < 0.0", r"raises\.must:ValueError|ensures\.member|raises\.none")]
 
 
 class C10(Prop):
@@ -242,12 +258,12 @@ class C16(Prop):
 
     def links(self, ctx):
         from vcore import links_misc
-        return [link_binning, links_misc.link_lean, links_misc.link_thorough_binning]
+        return [link_binning, link_evaluator, links_misc.link_lean, links_misc.link_thorough_binning]
 
     def canaries(self, ctx):
         t = BIN + "deterministic_choice"
         return [contract_canary("bisect_left", t, "from bisect import bisect", "from bisect import bisect_left as bisect", r"ensures\.member\+interval"),
-                contract_canary("total<0", t, "total <= 0.0", "total < 0.0", r"raises\.must:ValueError|ensures\.member"),
+                contract_canary("total<0", t, "total <= 0.0", "total < 0.0", r"raises\.must:ValueError|ensures\.member|raises\.none"),
                 contract_canary("len-check-dropped", t, "if len(cum_weights) != n:", "if len(cum_weights) > n:", r"raises\.must:ValueError|raises\.none|ensures"),
                 contract_canary("both-kinds-accepted", t, "elif weights is not None:", "elif False:", r"raises\.must:TypeError")]
 
